@@ -63,7 +63,7 @@ def scale_cases(root):
     # a DOCTYPE with an internal entity referred to tens of thousands of times in one text node (expansion must not be quadratic;
     # rejecting the DTD outright is an acceptable answer)
     ent = '<?xml version="1.0"?>\n<!DOCTYPE xs:schema [ <!ENTITY e "0123456789abcdef0123456789abcdef"> ]>\n'
-    add("doctype-entity-references-40000", {"main.xsd": ent + head.format(x='xmlns:tns="urn:scale:dtd"', u="urn:scale:dtd") + '<xs:annotation><xs:documentation>' + "&e;" * 40000
+    add("doctype-entity-references-160000", {"main.xsd": ent + head.format(x='xmlns:tns="urn:scale:dtd"', u="urn:scale:dtd") + '<xs:annotation><xs:documentation>' + "&e;" * 160000
         + "</xs:documentation></xs:annotation>" + ct.format(n="T") + "</xs:schema>\n"}, "main.xsd")
     add("name-20000-chars", {"main.xsd": head.format(x='xmlns:tns="urn:scale:name"', u="urn:scale:name") + ct.format(n="N" + "a" * 20000) + "</xs:schema>\n"}, "main.xsd")
     return out
